@@ -128,3 +128,25 @@ Theorem frozen_hooks_rows : forall s a,
   capplies_at a CR_hooks_frozen s = true \/ capplies_at a CR_noop_frozen s = true.
 Proof. exact frozen_hooks_rows_l. Qed.
 Print Assumptions frozen_hooks_rows.
+
+(** A hook collection of ANY length, the empty one included ([on_setattr=[]], [()],
+    [setters.pipe()]), at class or at field level, is a request for hooks: on a frozen
+    class (also frozen by inheritance) the frozen-hooks row applies, and next to an
+    auto-detected own [__setattr__] the hooks + own [__setattr__] row applies. *)
+Theorem hook_collections_of_any_length_are_hooks : forall s hs,
+  (is_frozen (s_o s) = true ->
+   (builder_os (s_o s) = COsPipe hs \/
+    exists x, In x (fields s (eff_auto s)) /\ a_on_setattr x = OsPipe hs) ->
+   capplies CR_hooks_frozen s = true) /\
+  (ad (s_o s) = true -> o_own_setattr (s_o s) = true -> frozen_arg (s_o s) = false ->
+   fields s (eff_auto s) <> [] ->
+   (builder_os (s_o s) = COsPipe hs /\ (forall x, In x (fields s (eff_auto s)) -> a_on_setattr x = OsNone) \/
+    exists x, In x (fields s (eff_auto s)) /\ a_on_setattr x = OsPipe hs) ->
+   capplies CR_hooks_own_setattr s = true).
+Proof. exact (fun s hs => conj (hook_collections_any_length_l s hs) (hook_collections_own_setattr_l s hs)). Qed.
+Print Assumptions hook_collections_of_any_length_are_hooks.
+
+Theorem empty_hook_collection_rejected :
+  build empty_hooks_spec = Rejected PDeco XValue /\ applicable empty_hooks_spec = [CR_hooks_frozen].
+Proof. exact empty_hooks_rejected_l. Qed.
+Print Assumptions empty_hook_collection_rejected.
